@@ -77,7 +77,7 @@ func engineTA(w *World, tier string) *EngineResult {
 		}
 	}
 	r.Stats["unchecked_assertions"] = n
-	r.floor("unchecked_assertions", 12)
+	r.floor("unchecked_assertions", 4)
 	for k := range taReviewed {
 		if _, used := r.Reviewed[k]; !used {
 			r.Notes = append(r.Notes, "reviewed entry without a matching site (stale): "+k)
